@@ -347,3 +347,8 @@ add("controller-state-in-class-body", F, ["C19"], "dfols/controller.py", "class 
 add("dykstra-rescales-tolerance", F, ["C15", "C09"], "dfols/util.py", "    x = x0.copy()\n    p = len(P)\n", "    x = x0.copy()\n    tol = tol * max(1.0, np.dot(x0, x0))\n    p = len(P)\n", "limit-reassigned")
 add("geometry-step-mirrored", F, ["C13"], "dfols/trust_region.py", "    smax = trsbox_linear(-g, lower - xbase, upper - xbase, Delta, use_fortran=use_fortran)  # maximise g' * s", "    smax = -smin", "C13-6")
 add("geometry-step-clamp-mixes-frames", F, ["C13"], "dfols/controller.py", "np.minimum(self.model.sl, 0.0), np.maximum(self.model.su, 0.0), adelt)", "np.minimum(self.model.sl, 0.0), np.maximum(self.model.su, self.model.xbase), adelt)", "C13-3.frame-agreement-clamp")
+
+# ---- pre-repair forms of F18d and F07h, C06-6
+add("delta-over-tau-uncapped", F, ["C18"], "dfols/solver.py", "control.delta = min(min(params(\"tr_radius.gamma_dec\") * control.delta, dnorm) / tau, 1e10)  # tau can be 0", "control.delta = min(params(\"tr_radius.gamma_dec\") * control.delta, dnorm) / tau", "C18-3")
+add("scaling-before-shape-rows", F, ["C07"], "dfols/solver.py", "    scaling_changes = None\n    if exit_info is None and scaling_within_bounds:", "    scaling_changes = None\n    if scaling_within_bounds:", "C07-2b")
+add("sfista-without-the-box", F, ["C06"], "dfols/controller.py", "                d, gnew, crvmin = ctrsbox_sfista(self.model.xopt(abs_coordinates=True), gopt, H, [proj], self.delta,", "                d, gnew, crvmin = ctrsbox_sfista(self.model.xopt(abs_coordinates=True), gopt, H, [], self.delta,", "C06-6")
